@@ -61,6 +61,12 @@ class TupleV:
 
 
 @dataclass(frozen=True)
+class KwArgs:
+    """The **kwargs of the frame: the keyword arguments no named parameter took."""
+    items: tuple          # ((name, value), ...)
+
+
+@dataclass(frozen=True)
 class AttrRef:
     """Reference to a mutable container attribute of the session object."""
     attr: str
@@ -290,6 +296,9 @@ class Interp:
                     frame["locals"][p.arg] = Unknown(f"missing arg {p.arg}")
         for p, d in zip(a.kwonlyargs, a.kw_defaults):
             frame["locals"][p.arg] = args.get(p.arg, ("__default__", d) if d is not None else Unknown("kwonly"))
+        if a.kwarg is not None:
+            taken = set(names) | {p.arg for p in a.kwonlyargs}
+            frame["locals"][a.kwarg.arg] = KwArgs(tuple((k, v) for k, v in args.items() if k not in taken))
         st = st
         st.frames.append(frame)
         # evaluate defaults lazily now (constants in practice)
@@ -869,6 +878,14 @@ class Interp:
                     continue
                 pos = vs[: len(e.args)]
                 kws = {k.arg: v for k, v in zip(e.keywords, vs[len(e.args):]) if k.arg}
+                for k, v in zip(e.keywords, vs[len(e.args):]):
+                    if k.arg is None:
+                        if not isinstance(v, KwArgs):
+                            raise AnalysisError(f"session interpreter: `**{norm(k.value)[:30]}` is not the frame's own keyword dictionary at {st.frames[-1]['func']}:{e.lineno}")
+                        for nm, vv in v.items:
+                            kws.setdefault(nm, vv)
+                if any(isinstance(a, ast.Starred) for a in e.args):
+                    raise AnalysisError(f"session interpreter: starred argument at {st.frames[-1]['func']}:{e.lineno}")
                 out.extend(self.apply(fv, pos, kws, s3, e))
         return out
 
